@@ -27,6 +27,8 @@ func runC07(c *eng.Ctx) {
 	ruleChangeLeaderPreconditionLooksThePartitionUp(c)
 	c.Rule("R02.7", "K5")
 	ruleISRChangeCarriesTheReplicatorsGeneration(c)
+	c.Rule("R07.2", "K1")
+	ruleEveryCountedReportIsVetted(c)
 	c.Rule("R07.11", "K1")
 	ruleElectionIsForTheReportedLeaderEpoch(c)
 	p := c.P
